@@ -9,14 +9,14 @@ out=/tmp/seedout/$tag; wt=/tmp/vs-$tag
 log=$out/verified.txt; : > $log
 git -C /repo worktree add --detach $wt HEAD >/dev/null 2>&1 || { echo "worktree failed" >> $log; exit 1; }
 cd $wt
-cp $out/demo/*_test.go $wt/$pkg/ 2>/dev/null
+mkdir -p $wt/$pkg; cp $out/demo/*_test.go $wt/$pkg/ 2>/dev/null
 echo "== demo WITHOUT change" >> $log
 go test $extra -vet=off -count=1 -run "$re" ./$pkg/ >> $log 2>&1; echo "rc=$?" >> $log
 git apply $out/patch.diff >> $log 2>&1 || echo "PATCH-APPLY-FAILED" >> $log
 echo "== build WITH change" >> $log
 go build ./... >> $log 2>&1; echo "rc=$?" >> $log
 echo "== demo WITH change" >> $log
-go test $extra -vet=off -count=1 -run "$re" ./$pkg/ 2>&1 | tail -15 >> $log; 
+go test $extra -vet=off -count=1 -run "$re" ./$pkg/ 2>&1 | grep -E "^\s*--- FAIL|^FAIL|^ok|^panic" | head -12 >> $log; 
 rm -f $wt/$pkg/seed_c*_test.go $wt/$pkg/*c[0-9][0-9]*demo*_test.go $wt/$pkg/*_demo_test.go $wt/$pkg/*_demo_unix_test.go $wt/$pkg/*_verif_test.go $wt/$pkg/c01b_*_test.go
 echo "== suite WITH change (failures only)" >> $log
 go test -vet=off -count=1 -timeout 25m ./... 2>&1 | grep -E "^(FAIL|---|ok|panic)" | grep -v "^ok" >> $log
